@@ -216,6 +216,8 @@ def replay(cex):
         except Exception as e:  # noqa: BLE001
             return {"reproduced": True, "detail": f"raised {e!r}"}
     bad = []
+    if not np.allclose(u1.atoms.positions, np.asarray(x1, dtype=np.float32)) or not np.allclose(u2.atoms.positions, np.asarray(x2, dtype=np.float32)):
+        bad.append("the caller's universes were moved")
     if len(frames) != nf:
         bad.append(f"{len(frames)} frames for {nf} rows")
     x1f, x2f = np.asarray(x1, dtype=np.float32).astype(float), np.asarray(x2, dtype=np.float32).astype(float)
